@@ -101,6 +101,7 @@ def gen_c03(ch, spec):
     cfg["stall_max"] = ch.choice("cfg", [0.01, 0.2])
     # separate configuration: the offer's codec lines as another implementation would order them
     cfg["rtx_last"] = ch.chance("cfg", 0.12)
+    cfg["turn"] = fakes.gen_turn(ch, ["A", "B"])
     ops = []
     # follow-up negotiations that add media / a data channel, possibly swapping the offering side
     for _ in range(ch.choice("wl", [0, 0, 1, 1, 2])):
@@ -179,6 +180,27 @@ class Endpoint:
     def watch(self, ch):
         self.received.setdefault(ch.label, [])
         ch.on("message", lambda m, lab=ch.label: self.received[lab].append(m))
+        if self.world.cfg.get("reopen_on_close"):
+            # an application that answers the loss of a channel by opening a new one (from a later loop iteration,
+            # as an async handler would) - unless it has closed the connection itself
+            def on_close():
+                self.world.loop.call_soon(self.reopen, context=self.ctx)
+            ch.on("close", on_close)
+
+    def reopen(self):
+        if self.pc.signalingState == "closed" or getattr(self, "reopened", 0) >= 2 or self.world.user_closed(self.name):
+            return
+        self.reopened = getattr(self, "reopened", 0) + 1
+        try:
+            # (already running in this endpoint's context)
+            ch = self.pc.createDataChannel("re-%s-%d" % (self.name, self.reopened))
+            self.channels.append(ch)
+            self.watch(ch)
+            self.world.probes["channel_reopened_after_close_event"] += 1
+            if self.pc.sctp is not None and self.pc.sctp.state == "closed":
+                self.world.probes["channel_created_on_ended_association"] += 1
+        except Exception:  # noqa
+            pass
 
     def add_item(self, it):
         pc = self.pc
@@ -895,8 +917,10 @@ def gen_c19(ch, spec):
     cfg = {"world": "c19", "A": a, "B": b, "scenario": scen,
            "sig_delay": cs.choice("cfg", [0.0, 0.05, 0.4]), "net_base": cs.choice("cfg", [0.001, 0.03]),
            "sched": True, "stall_rate": 0.0, "stall_max": 0.0,
-           "flow": cs.choice("cfg", [0.3, 1.0, 2.5]), "renegotiate": cs.chance("cfg", 0.3),
-           "track_limit": cs.choice("cfg", [None, None, 3, 20])}
+           "flow": cs.choice("cfg", [0.3, 1.0, 2.5, 4.5, 7.0]), "renegotiate": cs.chance("cfg", 0.3),
+           "track_limit": cs.choice("cfg", [None, None, 3, 20]), "turn": fakes.gen_turn(cs, ["A", "B"]),
+           # a second negotiation right behind the first, while ICE / DTLS of the first are still connecting
+           "eager": cs.chance("cfg", 0.3)}
     j = spec.get("stratum", run % STRATA)
     # where in the scenario (as a fraction of its scheduler steps) close() is injected; a little beyond the end too
     cfg["close_frac"] = round((j + ch.uniform("cfg", 0.0, 1.0)) / STRATA * 1.08, 5)
@@ -908,6 +932,11 @@ def gen_c19(ch, spec):
     if spec.get("sweep"):
         cfg["who"] = spec["sweep"]["who"]
     cfg["stagger"] = ch.choice("cfg", [1, 3, 20, 200])
+    # the application creates one more data channel right before it calls close() (legal while the connection is not
+    # closed - also when the association behind it has already ended because the other side went first)
+    cfg["late_channel"] = ch.chance("cfg", 0.3)
+    cfg["reopen_on_close"] = ch.chance("cfg", 0.3)
+    cfg["survivor_wait"] = ch.choice("cfg", [0.0, 0.05, 1.0, 40.0])
     return cfg, []
 
 
@@ -982,6 +1011,12 @@ class C19World(C03World):
             except Exception:  # noqa
                 return
         await self.quiet_negotiate("A", "B")
+        if cfg.get("eager") and self.ep["B"].pc.signalingState == "stable":
+            try:
+                self.ep["B"].add_channel("eager-B")
+            except Exception:  # noqa
+                pass
+            await self.quiet_negotiate("B", "A")
         await self.wait_for(lambda: all(self.ep[n].pc.connectionState in ("connected", "closed", "failed") for n in "AB"), 20.0)
         # data flows both ways for a while
         t_end = self.loop.time() + cfg["flow"]
@@ -1032,10 +1067,21 @@ class C19World(C03World):
         await self.call(offerer, X.pc.setRemoteDescription, RTCSessionDescription(sdp=text, type="answer"))
 
     # -- close injection ------------------------------------------------------------------------
+    def user_closed(self, n):
+        return n in self.closing
+
     def start_close(self, n):
         if n in self.closing:
             return
         pc = self.ep[n].pc
+        if self.cfg.get("late_channel") and pc.signalingState != "closed":
+            try:
+                self.ep[n].add_channel("late-%s" % n)
+                self.probes["channel_created_right_before_close"] += 1
+                if pc.sctp is not None and pc.sctp.state == "closed":
+                    self.probes["channel_created_on_ended_association"] += 1
+            except Exception:  # noqa
+                pass
         rec = {"t0": self.loop.time(), "steps0": self.loop.steps, "state_at": (pc.signalingState, pc.connectionState,
                                                                               pc.iceConnectionState)}
         rec["task"] = self.loop.create_task(pc.close(), context=self.ep[n].ctx)
@@ -1043,6 +1089,10 @@ class C19World(C03World):
         self.log.add("close", n, rec["state_at"])
         self.probes["close_in_" + pc.connectionState] += 1
         self.probes["close_in_signaling_" + pc.signalingState] += 1
+        if any(c.readyState == "open" for c in self.ep[n].channels + self.ep[n].remote_channels):
+            self.probes["close_with_open_data_channels"] += 1
+        if pc.sctp is not None:
+            self.probes["close_with_sctp_" + pc.sctp.state] += 1
 
     def hook(self):
         if self.close_k is None or self.loop.steps < self.close_k or getattr(self, "_fired", False):
@@ -1112,6 +1162,15 @@ class C19World(C03World):
             self.probes["closed_after_scenario_end"] += 1
         await self.wait_for(lambda: getattr(self, "_second", None) is None, 60.0, poll=0.05)
         await self.judge()
+        # the peer nobody has closed yet: its remote side has gone away (closed, or vanished); some time later the
+        # application closes it too, and that close() is judged like the first
+        rest = [n for n in "AB" if n in self.ep and n not in self.closing]
+        if rest and not self.violations:
+            await asyncio.sleep(self.cfg.get("survivor_wait", 0.0))
+            for n in rest:
+                self.start_close(n)
+                self.probes["survivor_closed"] += 1
+            await self.judge(only=rest)
         # tidy up: the scenario and the surviving peer
         if not scen.done():
             scen.cancel()
@@ -1123,9 +1182,11 @@ class C19World(C03World):
                     pass
         self.link_faults(self.fabric.links)
 
-    async def judge(self):
+    async def judge(self, only=None):
         loop = self.loop
         for n, rec in list(self.closing.items()):
+            if only is not None and n not in only:
+                continue
             pc = self.ep[n].pc
             t = rec["task"]
             try:
@@ -1173,7 +1234,7 @@ class C19World(C03World):
         await asyncio.sleep(3.0)        # grace period
         import threading as _th
         for n, rec in self.closing.items():
-            if "dt" not in rec:
+            if "dt" not in rec or (only is not None and n not in only):
                 continue
             if rec["fired"]:
                 self.violation("C19", "event-fired-after-close-returned:" + rec["fired"][0], "%s: %r" % (n, rec["fired"][:5]))
